@@ -100,6 +100,8 @@ pub struct MsgInfo {
     pub text: String,
     pub root: Option<u32>,
     pub faults: Vec<String>,
+    /// issued by the foreign issuer: (protocol, key, payload is UTF-8, footer, assertion)
+    pub foreign: Option<(Proto, usize, bool, Option<String>, Option<String>)>,
 }
 
 #[derive(Clone, Copy, Debug, PartialEq, Eq)]
@@ -676,7 +678,7 @@ fn step(cx: &mut Ctx, idx: usize, op: &Op, ob: &Obs) {
                             builder: None,
                         },
                     );
-                    cx.msgs.insert(*out, MsgInfo { text: t.clone(), root: Some(*out), faults: vec![] });
+                    cx.msgs.insert(*out, MsgInfo { text: t.clone(), root: Some(*out), faults: vec![], foreign: None });
                     judge_token_structure(cx, idx, t, *proto, footer, assertion);
                     if proto.has_assertion() {
                         let gk = format!("{}|{}|{}|{}|{:?}", proto.name(), key, nonce_hex, payload, footer);
@@ -708,12 +710,12 @@ fn step(cx: &mut Ctx, idx: usize, op: &Op, ob: &Obs) {
                 let name = fault_name(kind);
                 cx.j.fire(name);
                 cx.j.trace.push(format!("fault:{}", name));
-                let (root, mut fl) = match cx.msgs.get(src) {
-                    Some(m) => (m.root, m.faults.clone()),
-                    None => (None, vec![]),
+                let (root, mut fl, foreign) = match cx.msgs.get(src) {
+                    Some(m) => (m.root, m.faults.clone(), m.foreign.clone()),
+                    None => (None, vec![], None),
                 };
                 fl.push(name.to_string());
-                cx.msgs.insert(*out, MsgInfo { text: t.clone(), root, faults: fl });
+                cx.msgs.insert(*out, MsgInfo { text: t.clone(), root, faults: fl, foreign });
             } else {
                 cx.j.trace.push("fault:n/a".into());
             }
@@ -721,7 +723,7 @@ fn step(cx: &mut Ctx, idx: usize, op: &Op, ob: &Obs) {
         (Op::Literal { out, text }, Obs::Literal) => {
             cx.j.fire("Garbage/Literal");
             cx.j.trace.push("literal".into());
-            cx.msgs.insert(*out, MsgInfo { text: text.clone(), root: None, faults: vec!["Literal".into()] });
+            cx.msgs.insert(*out, MsgInfo { text: text.clone(), root: None, faults: vec!["Literal".into()], foreign: None });
         }
         (Op::Imported { out, text, proto, key, payload, footer, assertion }, Obs::Literal) => {
             cx.j.trace.push(format!("imported:{}", proto.name()));
@@ -740,7 +742,7 @@ fn step(cx: &mut Ctx, idx: usize, op: &Op, ob: &Obs) {
                     builder: None,
                 },
             );
-            cx.msgs.insert(*out, MsgInfo { text: text.clone(), root: Some(*out), faults: vec![] });
+            cx.msgs.insert(*out, MsgInfo { text: text.clone(), root: Some(*out), faults: vec![], foreign: None });
         }
         (Op::NewVerifier { v, spec }, Obs::NewVerifier { ok, .. }) => {
             if *ok {
@@ -786,6 +788,15 @@ fn step(cx: &mut Ctx, idx: usize, op: &Op, ob: &Obs) {
                         _ => {}
                     }
                 }
+            }
+        }
+        (Op::ForeignIssue { proto, key, payload_hex, footer, assertion, out, .. }, Obs::ForeignIssue { issued }) => {
+            cx.j.trace.push(format!("foreign_issue:{}:{}", proto.name(), issued));
+            if *issued {
+                cx.j.fire("ForeignIssuer");
+                let utf8 = hex::decode(payload_hex).ok().map_or(false, |b| std::str::from_utf8(&b).is_ok());
+                // the text itself is not known to the model (the executor holds it): deliveries look it up by id
+                cx.msgs.insert(*out, MsgInfo { text: format!("<foreign:{}>", out), root: None, faults: vec![], foreign: Some((*proto, *key, utf8, footer.clone(), assertion.clone())) });
             }
         }
         (Op::DrawKeys { n }, Obs::Draws { ok, failed, distinct, constant_positions, worst_bit_dev_centisigma }) => {
@@ -1029,7 +1040,7 @@ fn judge_build(
                     builder: Some(b),
                 },
             );
-            cx.msgs.insert(out, MsgInfo { text: t.clone(), root: Some(out), faults: vec![] });
+            cx.msgs.insert(out, MsgInfo { text: t.clone(), root: Some(out), faults: vec![], foreign: None });
             cx.pending_readback.insert(out, idx);
             judge_token_structure(cx, idx, t, proto, &m.footer, &m.assertion);
             if let Some(mm) = cx.builders.get_mut(&b) {
@@ -1130,6 +1141,33 @@ fn judge_deliver(
         }
     }
 
+    if let Some((fproto, fkey, utf8, ffooter, fassertion)) = &m.foreign {
+        // a foreign issuer's token (or an altered copy of one): crash freedom only (judged above);
+        // what the verifier made of it is recorded as probes
+        let matching = m.faults.is_empty()
+            && *fproto == v.proto
+            && cx.key_identity_v(v.key, v.proto).is_some()
+            && cx.key_identity_v(v.key, v.proto) == cx.key_identity_i(*fkey, *fproto)
+            && opt_equiv(&v.footer, ffooter)
+            && opt_equiv(&if v.proto.has_assertion() { v.assertion.clone() } else { None }, &if fproto.has_assertion() { fassertion.clone() } else { None });
+        cx.j.trace.push(format!("deliver:foreign:{}:{}:{}:{}", vname, matching, utf8, out.verdict_class()));
+        cx.j.nontrivial |= cx.is("C09");
+        if matching {
+            let variant = match out {
+                Outcome::Err { variant, .. } => variant.clone(),
+                Outcome::Panic { .. } => "panic".to_string(),
+                _ => "ok".to_string(),
+            };
+            if *utf8 {
+                cx.j.probe(if out.is_ok() { "foreign_utf8_token_accepted" } else if v.layer == Layer::Core { "foreign_utf8_token_refused_by_core" } else { "foreign_utf8_token_refused_by_parser_layer" });
+            } else {
+                cx.j.probe(&format!("foreign_non_utf8_token:{}", variant));
+                // a `String` that is not UTF-8 is undefined behaviour in the caller: crash class
+                cx.clause("C09", "non_utf8_plaintext_is_an_error", idx, !out.is_ok(), "Err (the authentic plaintext is not UTF-8)", out.short(), &[("entry", vname.clone())]);
+            }
+        }
+        return;
+    }
     let root = match m.root.and_then(|r| cx.tokens.get(&r)).cloned() {
         Some(r) => r,
         None => {
